@@ -36,7 +36,11 @@ class Atom:
     characters (used when only is None).  minlen: 0 or 1.  int_of: SInt/int n when the atom is
     str(n) (so int(atom) == n).  t: z3 String constant standing for the text."""
 
-    def __init__(self, name, only=None, excl=frozenset(), minlen=0, int_of=None, note=''):
+    def __init__(self, name, only=None, excl=frozenset(), minlen=0, int_of=None, note='',
+                 exact1=False):
+        self.exact1 = exact1          # exactly one character (e.g. a letter in either case)
+        if exact1:
+            minlen = 1
         self.name = name
         self.only = frozenset(only) if only is not None else None
         self.excl = frozenset(excl)
@@ -114,7 +118,7 @@ class XStr(Sym):
         n = 0
         ts = []
         for g, p in self.segs:
-            ln = len(p) if isinstance(p, str) else z3.Length(p.t)
+            ln = len(p) if isinstance(p, str) else (1 if p.exact1 else z3.Length(p.t))
             if g is True and isinstance(ln, int):
                 n += ln
             else:
@@ -226,6 +230,9 @@ class XStr(Sym):
                     segs.append((g, getattr(p, name)()))
                 elif p.only is not None and all(getattr(c, name)() == c for c in p.only):
                     segs.append((g, p))
+                elif p.only is not None and p.exact1 and \
+                        len({getattr(c, name)() for c in p.only}) == 1:
+                    segs.append((g, getattr(next(iter(p.only)), name)()))   # 'n'|'N' -> 'N'
                 else:
                     raise Undetermined(f'{name}() of {p!r}')
             return XStr(segs).simplify()
@@ -289,6 +296,19 @@ def str_join(it, sep, xs):
     return XStr(segs).simplify()
 
 
+def case_variants(ctx, text, name='cv'):
+    """Every ASCII letter-case variant of `text` at once: each letter becomes a one-character atom
+    that is the letter in either case."""
+    segs = []
+    for k, ch in enumerate(text):
+        if ch.isascii() and ch.isalpha():
+            segs.append((True, Atom(ctx.fresh_name(f'{name}{k}'), only={ch.lower(), ch.upper()},
+                                    exact1=True, note=f'{ch.lower()}|{ch.upper()}')))
+        else:
+            segs.append((True, ch))
+    return XStr(segs)
+
+
 def str_of_int(it, v):
     """str(n) for a symbolic int: enumerated when the path condition leaves few values, otherwise
     an atom with provenance (int(str(n)) == n is the assumed law, DESIGN 2.12)."""
@@ -297,7 +317,9 @@ def str_of_int(it, v):
     except EngineError:
         pass
     name = it.ctx.fresh_name('strofint')
-    a = Atom(name, only='-0123456789', minlen=1, int_of=v, note='str(int)')
+    digits = '0123456789' if not it.ctx.feasible(v.t < 0) else '-0123456789'
+    a = Atom(name, only=digits, minlen=1, int_of=v, note='str(int)')
+    it.ctx.assume_type(z3.Length(a.t) >= 1)
     return XStr([(True, a)])
 
 
@@ -445,7 +467,26 @@ def str_split(it, s, sep=None, maxsplit=-1):
         r, _ = it.ctx._check(z3.Not(BT(same)), it.ctx.FEAS_TIMEOUT_MS)
         if r != z3.unsat:
             raise Undetermined('split: the separators do not follow the join discipline')
-    items = [(n, x.simplify()) for n, x in zip(ne, xs) if n is not False]
+    def under_guard(x):
+        # a token made of one guarded piece: inside the list item (which carries the guard) the
+        # token is just that piece
+        if len(x.segs) == 1:
+            return XStr([(True, x.segs[0][1])]).simplify()
+        return x.simplify()
+    items = []
+    for n, x in zip(ne, xs):
+        if n is False:
+            continue
+        if len(x.segs) > 1 and all(g is not True for g, _ in x.segs):
+            # pieces that exclude one another (a?b:c merged strings): one list item per piece
+            gs = [g for g, _ in x.segs]
+            excl = all(not it.ctx.feasible(z3.And(gs[a], gs[b]))
+                       for a in range(len(gs)) for b in range(a + 1, len(gs)))
+            if excl:
+                for g, p in x.segs:
+                    items.append((mk_bool(g), XStr([(True, p)]).simplify()))
+                continue
+        items.append((n, under_guard(x)))
     items.append((b_not(b_or(*ne)), ''))
     return GList([(g, x) for g, x in items if g is not False])
 
